@@ -67,8 +67,123 @@ theorem code_matches_model :
        "c.Send(req)"] := by
   refine ⟨rfl, rfl, rfl, rfl⟩
 
+/-! ### added: completion under every schedule / interference -/
+def followAdv (t : Truth) (present : Bool) : Nat → Nat → Bool → List Bool → Option (Nat × Nat)
+  | 0, _, _, _ => none
+  | fuel + 1, node, asking, steals =>
+    match nodeAnswer t node present asking with
+    | .serve => some (node, 0)
+    | .moved n => (followAdv t present fuel n false steals).map fun r => (r.1, r.2 + 1)
+    | .ask n =>
+      match steals with
+      | true :: rest => (followAdv t present fuel n false rest).map fun r => (r.1, r.2 + 1)
+      | _ :: rest => (followAdv t present fuel n true rest).map fun r => (r.1, r.2 + 1)
+      | [] => (followAdv t present fuel n true []).map fun r => (r.1, r.2 + 1)
+
+def bump1 (r : Nat × Nat) : Nat × Nat := (r.1, r.2 + 1)
+
+theorem adv_serve (t : Truth) (p : Bool) (f node : Nat) (asking : Bool) (st : List Bool)
+    (h : nodeAnswer t node p asking = .serve) : followAdv t p (f + 1) node asking st = some (node, 0) := by
+  simp [followAdv, h]
+
+theorem adv_moved (t : Truth) (p : Bool) (f node n : Nat) (asking : Bool) (st : List Bool)
+    (h : nodeAnswer t node p asking = .moved n) :
+    followAdv t p (f + 1) node asking st = (followAdv t p f n false st).map bump1 := by
+  simp only [followAdv, h]; rfl
+
+theorem adv_ask_stolen (t : Truth) (p : Bool) (f node n : Nat) (asking : Bool) (rest : List Bool)
+    (h : nodeAnswer t node p asking = .ask n) :
+    followAdv t p (f + 1) node asking (true :: rest) = (followAdv t p f n false rest).map bump1 := by
+  simp only [followAdv, h]; rfl
+
+theorem adv_ask_kept (t : Truth) (p : Bool) (f node n : Nat) (asking : Bool) (rest : List Bool)
+    (h : nodeAnswer t node p asking = .ask n) :
+    followAdv t p (f + 1) node asking (false :: rest) = (followAdv t p f n true rest).map bump1 := by
+  simp only [followAdv, h]; rfl
+
+theorem adv_ask_nil (t : Truth) (p : Bool) (f node n : Nat) (asking : Bool)
+    (h : nodeAnswer t node p asking = .ask n) :
+    followAdv t p (f + 1) node asking [] = (followAdv t p f n true []).map bump1 := by
+  simp only [followAdv, h]; rfl
+
+/-- from the owner of a migrating slot whose key has moved: each theft costs a round trip
+target → owner, then the command is served by the target -/
+theorem from_owner (owner dst : Nat) (hne : dst ≠ owner) : ∀ (steals : List Bool) (fuel : Nat),
+    2 + 2 * steals.length ≤ fuel →
+    ∃ r, followAdv ⟨owner, some dst⟩ false fuel owner false steals = some (dst, r) ∧ r ≤ 1 + 2 * steals.length := by
+  have hown : ∀ a, nodeAnswer ⟨owner, some dst⟩ owner false a = .ask dst := by intro a; simp [nodeAnswer]
+  have hdstA : nodeAnswer ⟨owner, some dst⟩ dst false true = .serve := by simp [nodeAnswer, hne]
+  have hdstN : nodeAnswer ⟨owner, some dst⟩ dst false false = .moved owner := by simp [nodeAnswer, hne]
+  intro steals
+  induction steals with
+  | nil =>
+    intro fuel hf
+    obtain ⟨f, rfl⟩ : ∃ f, fuel = f + 2 := ⟨fuel - 2, by simp at hf; omega⟩
+    refine ⟨1, ?_, by omega⟩
+    rw [adv_ask_nil _ _ _ _ _ _ (hown false), adv_serve _ _ _ _ _ _ hdstA]; rfl
+  | cons b rest ih =>
+    intro fuel hf
+    obtain ⟨f, rfl⟩ : ∃ f, fuel = f + 4 := ⟨fuel - 4, by simp at hf; omega⟩
+    cases b with
+    | false =>
+      refine ⟨1, ?_, by omega⟩
+      rw [adv_ask_kept _ _ _ _ _ _ _ (hown false), adv_serve _ _ _ _ _ _ hdstA]; rfl
+    | true =>
+      obtain ⟨r, h1, h2⟩ := ih (f + 2) (by simp at hf ⊢; omega)
+      refine ⟨r + 2, ?_, by simp; omega⟩
+      rw [adv_ask_stolen _ _ _ _ _ _ _ (hown false), adv_moved _ _ _ _ _ _ _ hdstN, h1]; rfl
+
+/-- **Interference only costs hops.** ASKING and the redirected command are two separate sends;
+other traffic on the target's connection can consume the one-shot flag in between (`steals`: for
+each ASK followed, whether that happens).  However often it happens, the command still ends at
+the node that has to execute it and is executed there once; each theft costs two more
+redirections.  A client never sees any of it. -/
+theorem interference_only_costs_hops (t : Truth) (present : Bool)
+    (hdst : ∀ d, t.target = some d → d ≠ t.owner) (steals : List Bool) (first : Nat) :
+    ∃ r, followAdv t present (3 + 2 * steals.length) first false steals = some (holder t present, r) ∧
+      r ≤ 2 + 2 * steals.length := by
+  obtain ⟨owner, target⟩ := t
+  obtain ⟨f, hfuel⟩ : ∃ f, 3 + 2 * steals.length = f + 2 := ⟨1 + 2 * steals.length, by omega⟩
+  rw [hfuel]
+  unfold holder
+  cases target with
+  | none =>
+    by_cases hf : first = owner
+    · subst hf
+      exact ⟨0, adv_serve _ _ _ _ _ _ (by simp [nodeAnswer]), by omega⟩
+    · refine ⟨1, ?_, by omega⟩
+      rw [adv_moved _ _ _ _ owner _ _ (by simp [nodeAnswer, hf]), adv_serve _ _ _ _ _ _ (by simp [nodeAnswer])]; rfl
+  | some dst =>
+    have hne : dst ≠ owner := hdst dst rfl
+    cases present with
+    | true =>
+      by_cases hf : first = owner
+      · subst hf
+        exact ⟨0, adv_serve _ _ _ _ _ _ (by simp [nodeAnswer]), by omega⟩
+      · refine ⟨1, ?_, by omega⟩
+        have hm : nodeAnswer ⟨owner, some dst⟩ first true false = .moved owner := by
+          by_cases hfd : first = dst
+          · simp [nodeAnswer, hfd, hne]
+          · have : ¬ dst = first := fun h => hfd h.symm
+            simp [nodeAnswer, hf, this]
+        rw [adv_moved _ _ _ _ owner _ _ hm, adv_serve _ _ _ _ _ _ (by simp [nodeAnswer])]; rfl
+    | false =>
+      by_cases hf : first = owner
+      · subst hf
+        obtain ⟨r, h1, h2⟩ := from_owner first dst hne steals (f + 2) (by omega)
+        exact ⟨r, h1, by omega⟩
+      · obtain ⟨r, h1, h2⟩ := from_owner owner dst hne steals (f + 1) (by omega)
+        refine ⟨r + 1, ?_, by omega⟩
+        have hm : nodeAnswer ⟨owner, some dst⟩ first false false = .moved owner := by
+          by_cases hfd : first = dst
+          · simp [nodeAnswer, hfd, hne]
+          · have : ¬ dst = first := fun h => hfd h.symm
+            simp [nodeAnswer, hf, this]
+        rw [adv_moved _ _ _ _ owner _ _ hm, h1]; rfl
+
 end SamVerif.Props.C04
 
 #print axioms SamVerif.Props.C04.redirections_end_at_the_holder
 #print axioms SamVerif.Props.C04.no_redirect_when_table_is_current
 #print axioms SamVerif.Props.C04.code_matches_model
+#print axioms SamVerif.Props.C04.interference_only_costs_hops
